@@ -133,3 +133,14 @@ Proof.
   intros p x. unfold hic_of. pose proof (index_le_65 p (hash x)). apply N.le_lt_trans with 65; [assumption|reflexivity].
 Qed.
 Print Assumptions C06_redis_state_depends_on_set_only.
+
+(* Redis, end to end: two Redis-backed sketches representing the in-memory sketches of two streams;
+   after Merge the receiver represents the sketch of the concatenated stream (the union) and the
+   argument still represents its own stream *)
+Theorem C06_redis_merge_is_union : forall (hic : N -> bytes -> N * N) m al s0 xs ys ma mb u s a b,
+  hll_new m al = Ok s0 -> HLLApi.upd_all hic s0 xs = Ok ma -> HLLApi.upd_all hic s0 ys = Ok mb ->
+  HLLApi.upd_all hic s0 (xs ++ ys) = Ok u ->
+  hrefines s a ma -> hrefines s b mb -> rh_key a <> rh_key b ->
+  exists s', rhll_merge s a b = (Ok tt, s') /\ hrefines s' a u /\ hrefines s' b mb.
+Proof. exact RedisHLLHistory.redis_merge_is_union. Qed.
+Print Assumptions C06_redis_merge_is_union.
